@@ -239,6 +239,22 @@ def gen_gated_systematic():
     return cases
 
 
+def gen_abort_unpolled():
+    """timers of every kind with zero / small periods aborted at once (no await between creation
+    and abort: the timer task cannot have been polled) and, as the control, with a settle in
+    between; alone and next to a second live timer"""
+    cases = []
+    for kind in "aeki":
+        for dur in ([1, 250_000, MS] if kind == "i" else [0, 1, 999_999, MS]):
+            for between in ([], [("settle",)], [("stop", 3)], [("mk", "a", MS)]):
+                for tail in ([("settle",), ("probe",)], [("adv", 1), ("probe",), ("adv", MS), ("probe",)],
+                             [("adv", 2 * MS), ("probe",)]):
+                    for born in (0, 300_000):
+                        ops = ([("adv", born)] if born else []) + [("mk", kind, dur)] + list(between) + [("abort", 0)] + list(tail)
+                        cases.append(ops)
+    return cases
+
+
 def gen_exhaustive():
     """one timer x duration x one action at every position relative to the expiry"""
     cases = []
@@ -390,6 +406,7 @@ def run(chk):
     cases += [("", c) for c in gen_exhaustive()]
     cases += [("S", c) for c in gen_parked_systematic()]
     cases += [("G", c) for c in gen_gated_systematic()]
+    cases += [("", c) for c in gen_abort_unpolled()]
     n_exh = len(cases) - n_corpus
     n_rand = (1500 if quick else 20000) * factor
     for k in range(n_rand):
